@@ -181,7 +181,7 @@ func runCache(_ *testing.T, c urlCase) error {
 	return nil
 }
 
-var labelsPool = []string{"example", "snowflake-broker", "torproject", "net", "com", "a", "ab", "abc", "ab--cd", "x--y", "xn--bcher-kva", "bücher", "例え", "www", "a-b", "1", "123", "0", "-a", "a-", strings.Repeat("a", 63), strings.Repeat("b", 31), strings.Repeat("c", 20), "xn--a", "Example", "ÉCOLE"}
+var labelsPool = []string{"ab-", "example", "snowflake-broker", "torproject", "net", "com", "a", "ab", "abc", "ab--cd", "x--y", "xn--bcher-kva", "bücher", "例え", "www", "a-b", "1", "123", "0", "-a", "a-", strings.Repeat("a", 63), strings.Repeat("b", 31), strings.Repeat("c", 20), "xn--a", "Example", "ÉCOLE"}
 
 func genDomain(t *rapid.T) string {
 	n := rapid.IntRange(1, 5).Draw(t, "nlabels")
